@@ -1341,6 +1341,14 @@ package spine
 //@   ensures[C20] atomic: acquisitions(muxUseCaseData) == 1 && at(SetData, held(muxUseCaseData)) && at(LocalFeatureDataCopyOfType, held(muxUseCaseData)) && locksUnchanged()
 //@   modifies held, wm, world, @SETLOG, @PUBLISH, outmisc, cells(model.NodeManagementUseCaseDataType), cells(model.UseCaseInformationDataType), cells(model.UseCaseSupportType), cells(model.FeatureAddressType)
 
+//@ func (*EntityLocal).HasUseCaseSupport
+//@   requires r != nil && r.Entity != nil && r.Entity.address != nil && r.device != nil
+//@   ensures[C20] asks-for-own-address: res2(LocalFeatureDataCopyOfType, 0, 1) == nil ==> mineAddr(arg2(HasUseCaseSupport, 0, 1)) && arg2(HasUseCaseSupport, 0, 2) == actor && arg2(HasUseCaseSupport, 0, 3) == useCaseName && arg2(HasUseCaseSupport, 0, 0) == res2(LocalFeatureDataCopyOfType, 0, 0) && result == res2(HasUseCaseSupport, 0, 0)
+//@   ensures[C20] nothing-declared: res2(LocalFeatureDataCopyOfType, 0, 1) != nil ==> !result
+//@   ensures[C20] reads-the-registry: arg2(LocalFeatureDataCopyOfType, 0, 0) == old(r.device.NodeManagement()) && arg2(LocalFeatureDataCopyOfType, 0, 1) == UCF
+//@   ensures[C20] read-only: setn == old(setn)
+//@   modifies held, wm, world
+
 //@ func (*EntityLocal).SetUseCaseAvailability
 //@   requires r != nil && r.Entity != nil && r.Entity.address != nil && r.device != nil && len(useCaseName) > 0
 //@   ensures[C20] sets-for-own-address: res2(LocalFeatureDataCopyOfType, 0, 1) == nil ==> mineAddr(arg2(SetAvailability, 0, 1)) && arg2(SetAvailability, 0, 2) == actor && arg2(SetAvailability, 0, 3) == useCaseName && arg2(SetAvailability, 0, 4) == available
